@@ -122,7 +122,7 @@ theorem implicitDeps_mem (targets : Name → Option Name) :
 /-! ### the loader section -/
 
 theorem tgt_evalCreator {inp : Input} {s : Sys} {l : LId} (tname : Name) (h : TgtOK inp s) :
-    TgtOK inp (evalCreator inp s l tname) := by
+    TgtOK inp (evalCreator inp s l tname b) := by
   unfold evalCreator
   cases hr : regTargets s.targets (targetPairs (inp.make (inp.creatorOf l) tname)) with
   | none => exact ⟨h.tab, h.node⟩
@@ -135,8 +135,8 @@ theorem tgt_evalCreator {inp : Input} {s : Sys} {l : LId} (tname : Name) (h : Tg
       exact (h.node n nd g hn hg).transfer hext (fun x => x)
 
 theorem evalCreator_facts (inp : Input) (s : Sys) (l : LId) (tname : Name) :
-    (evalCreator inp s l tname).nodes = s.nodes ∧
-    ((evalCreator inp s l tname).susp = s.susp ∨ (evalCreator inp s l tname).susp = .err .dupTarget) := by
+    (evalCreator inp s l tname b).nodes = s.nodes ∧
+    ((evalCreator inp s l tname b).susp = s.susp ∨ (evalCreator inp s l tname b).susp = .err .dupTarget) := by
   unfold evalCreator
   split
   · exact ⟨rfl, Or.inr rfl⟩
@@ -270,7 +270,7 @@ theorem tgt_loaderStep {inp : Input} {s : Sys} {n : Name} {nd : Node} {l : LId} 
         · rw [h1] at he; exact absurd he (hne e)
         · exact TgtInv.of_err h1 (fun x hx => by cases hx)
       · rename_i hno
-        have hne1 : NoErr (evalCreator inp s l (toLoad inp l n)) := fun e he => hno e he
+        have hne1 : NoErr (evalCreator inp s l (toLoad inp l n) nd.bad) := fun e he => hno e he
         exact tgt_afterCreate (tgt_evalCreator _ h) hne1 (by rw [hnodes]; exact hn) hl'
     · exact tgt_afterCreate h hne hn hl'
 
